@@ -22,6 +22,7 @@ fn main() {
         "C09" => props::c09::run(&mut ctx),
         "C04" => props::c04::run(&mut ctx),
         "C06" => props::c06::run(&mut ctx),
+        "C10" => props::c10::run(&mut ctx),
         _ => { eprintln!("unknown property {prop}"); std::process::exit(2); }
     }
     ctx.finish(out);
